@@ -396,7 +396,7 @@ def reload_text(text, entry, fmt, lib):
         disk = SimDisk({"dirs": ["/d"], "files": {name: text.encode("utf-8").hex()}},
                        {"short_reads": 777})
         with Facade(facade, disk) as fa:
-            return lib.simfile.open(name, **fa.kw)
+            return lib.simfile.open(fa.p(name), **fa.kw)
     raise HarnessError("unknown entry %r" % (entry,))
 
 
